@@ -29,15 +29,36 @@ import (
 //
 //	UnquoteSingleQuoted([]byte("'foo'")) == "foo"
 func UnquoteSingleQuoted(in []byte) (string, error) {
-	out := string(swapQuotes(unescapeQuotes(in, '"')))
-	str, err := strconv.Unquote(out)
-	if err != nil {
-		return str, err
+	if len(in) < 2 || in[0] != '\'' || in[len(in)-1] != '\'' {
+		return "", strconv.ErrSyntax
 	}
 
-	// s/'/"/g, s/"/'/g
-	out = string(swapQuotes([]byte(str)))
-	return out, nil
+	// Rewrite the literal as the equivalent double quoted literal: an
+	// escaped single quote becomes a plain one, a plain double quote
+	// becomes an escaped one, every other escape sequence is kept. (Swapping
+	// the two quote characters before and after unquoting also swapped quote
+	// characters written as numeric escapes such as \x27.)
+	body := in[1 : len(in)-1]
+	out := make([]byte, 0, len(in)+2)
+	out = append(out, '"')
+	for i := 0; i < len(body); i++ {
+		c := body[i]
+		switch {
+		case c == '\\' && i+1 < len(body):
+			i++
+			if body[i] == '\'' {
+				out = append(out, '\'')
+			} else {
+				out = append(out, c, body[i])
+			}
+		case c == '"':
+			out = append(out, '\\', '"')
+		default:
+			out = append(out, c)
+		}
+	}
+	out = append(out, '"')
+	return strconv.Unquote(string(out))
 }
 
 // UnquoteDoubleQuoted unquotes a slice of bytes representing a double quoted
@@ -67,22 +88,6 @@ func unescapeQuotes(in []byte, quote byte) []byte {
 			continue
 		}
 		out = append(out, c)
-	}
-	return out
-}
-
-// swapQuotes replaces all single quotes with double quotes and all double
-// quotes with single quotes.
-func swapQuotes(in []byte) []byte {
-	// s/'/"/g, s/"/'/g
-	out := make([]byte, len(in))
-	for i, c := range in {
-		if c == '"' {
-			c = '\''
-		} else if c == '\'' {
-			c = '"'
-		}
-		out[i] = c
 	}
 	return out
 }
